@@ -1133,7 +1133,17 @@ class Mailbox:
         # However if optional is False, then we will do our scan regardless
         # of the mtime.
         #
-        if start_mtime <= self.mtime and self.optional_resync and optional:
+        # (But not if what we know about the mailbox does not add up - we
+        # were killed after the mailbox's row was written to the db but before
+        # its messages were: then the scan has to happen now, the mtime is
+        # not going to change by itself.)
+        #
+        if (
+            start_mtime <= self.mtime
+            and self.optional_resync
+            and optional
+            and len(self.msg_keys) == self.num_msgs
+        ):
             return False
 
         # We always reset `optional_resync` once we begin a non-optional
